@@ -62,6 +62,10 @@ func TvString(tv *sdcpb.TypedValue) string {
 
 // DecimalString renders digits * 10^-precision in canonical form (no trailing zeros, at least one fraction digit).
 func DecimalString(digits int64, precision uint32) string {
+	if precision > 64 {
+		// not a decimal64 any more (at most 18 fraction digits): do not compute 10^precision
+		return fmt.Sprintf("%de-%d", digits, precision)
+	}
 	r := new(big.Rat).SetFrac(big.NewInt(digits), new(big.Int).Exp(big.NewInt(10), big.NewInt(int64(precision)), nil))
 	return RatString(r)
 }
